@@ -57,8 +57,9 @@ def write_coqproject():
     return False
 
 
-def ensure_built(clean=False, timeout=3000):
-    """(re)build every .vo that is out of date (full .vo build; never -vos). Serialised by a lock."""
+def ensure_built(clean=False, timeout=3000, targets=None):
+    """(re)build every .vo that is out of date (full .vo build; never -vos). Serialised by a lock.
+    targets: list of .v paths relative to coq/ -- build only these and what they depend on."""
     os.makedirs(WORK, exist_ok=True)
     t0 = time.time()
     with open(os.path.join(WORK, "build.lock"), "w") as lk:
@@ -72,7 +73,8 @@ def ensure_built(clean=False, timeout=3000):
                 return False, p.stdout + p.stderr, time.time() - t0
         if clean:
             subprocess.run(["make", "clean"], cwd=COQ, capture_output=True, text=True)
-        p = subprocess.run(["bash", "-c", "ulimit -s unlimited 2>/dev/null; timeout %d make -j16 2>&1" % timeout],
+        tg = " ".join(t[:-2] + ".vo" for t in (targets or []))
+        p = subprocess.run(["bash", "-c", "ulimit -s unlimited 2>/dev/null; timeout %d make -j16 %s 2>&1" % (timeout, tg)],
                            cwd=COQ, capture_output=True, text=True)
         return p.returncode == 0, p.stdout[-6000:], time.time() - t0
 
